@@ -268,6 +268,10 @@ class ActivityAnalyzer(transformer.Base):
   def visit_arg(self, node):
     """Mark function parameter (ast.arg) in scope. Requires QnResolver has run."""
     node = self.generic_visit(node)
+    if self._track_annotations_only:
+      # Annotation pass, run in the defining scope: the parameter itself is
+      # bound in the function's own scope (see _visit_arg_declarations).
+      return node
     if not anno.hasanno(node, anno.Basic.QN):
       return node
     qn = anno.getanno(node, anno.Basic.QN)
